@@ -535,3 +535,59 @@ def rand_ops(rnd, length, njobs, nh, maxnest=3, lifecycle=True):
         if e["op"] == "nset" and e["form"] == "attr" and not is_ident(e["k2"]):
             e["form"] = "item"
     return evs
+
+
+# ---- edits that are hard for weak fingerprints of the serialised document ------------------------
+def hard_pairs(rnd, n=36):
+    """Pairs of documents (label, before, after) whose JSON texts have EQUAL LENGTH and collide under cheap fingerprints,
+    found by brute force over short texts: equal Adler-32 (equal byte sum and equal position-weighted byte sum, also what
+    Fletcher checks), or at least equal byte sum / equal xor (digit permutations, swapped elements, swapped values).
+    The buffered flush decides by a fingerprint of the text whether a document is written at all."""
+    import itertools
+    import zlib
+
+    def text(d):
+        return json.dumps(d).encode()
+
+    fixed = [("adler:121->202", {"k": 121}, {"k": 202}), ("adler:[0,2,0]->[1,0,1]", {"k": [0, 2, 0]}, {"k": [1, 0, 1]}),
+             ("adler:'bdb'->'cbc'", {"k": "bdb"}, {"k": "cbc"}),
+             ("sum:12->21", {"k": 12}, {"k": 21}), ("sum:[1,2]->[2,1]", {"k": [1, 2]}, {"k": [2, 1]}),
+             ("sum:swapped-values", {"a": 1, "b": 2}, {"a": 2, "b": 1}), ("sum:'ab'->'ba'", {"k": "ab"}, {"k": "ba"}),
+             ("sum:nested-swap", {"n": {"c": 1, "d": 2}}, {"n": {"c": 2, "d": 1}}), ("sum:1.5->5.1", {"k": 1.5}, {"k": 5.1}),
+             ("adler:two-keys", {"a": 13, "b": 31}, {"a": 22, "b": 22})]
+    universe = [{"k": i} for i in range(100, 1000)]
+    universe += [{"k": "".join(t)} for t in itertools.product("abcde", repeat=3)]
+    universe += [{"k": list(t)} for t in itertools.product(range(5), repeat=3)]
+    universe += [{"a": i, "b": j} for i in range(10, 40) for j in range(10, 40)]
+    universe += [{"k": i / 10} for i in range(11, 100) if i % 10]
+    groups = {}
+    for d in universe:
+        t = text(d)
+        groups.setdefault((len(t), zlib.adler32(t)), []).append(d)
+    found = []
+    for (ln, _), ds in sorted(groups.items(), key=lambda kv: kv[0]):
+        if len(ds) > 1:
+            a, b = rnd.sample(ds, 2)
+            found.append(("adler:brute-force", a, b))
+    rnd.shuffle(found)
+    out = fixed + found[:max(0, n - len(fixed))]
+    for label, a, b in out:
+        ta, tb = text(a), text(b)
+        assert len(ta) == len(tb) and sum(ta) == sum(tb) and a != b, (label, a, b)
+        if label.startswith("adler"):
+            assert zlib.adler32(ta) == zlib.adler32(tb), (label, a, b)
+    return out
+
+
+def hard_pair_ops(f, before, after, spelling):
+    """the buffered edit before -> after through ONE handle of file f (default capacity), then reads through it and another handle"""
+    h, h2 = (f, 1), (f, 2)
+    evs = [{"op": "reset", "h": h, "v": before, "sp": 2 * spelling}, {"op": "read", "h": h}, {"op": "enter", "form": "", "ix": 0}]
+    if spelling == 0:
+        evs += [{"op": "set", "h": h, "k": k, "v": v, "sp": spelling} for k, v in after.items() if not eq_exact(before.get(k), v)]
+    else:
+        evs.append({"op": "update", "h": h, "v": after, "sp": 0})
+    evs += [{"op": "read", "h": h}, {"op": "exit"}, {"op": "read", "h": h}, {"op": "read", "h": h2}]
+    for e in evs:
+        e.setdefault("form", "")
+    return evs
